@@ -536,6 +536,31 @@ Proof.
   destruct (kidx_storable k); [apply good_set_flat; exact G1 | exact G1].
 Qed.
 
+Lemma with_props_ids r p : euid (with_props r p) = euid r /\ ekind (with_props r p) = ekind r /\ ews (with_props r p) = ews r /\ ereg (with_props r p) = ereg r.
+Proof. repeat split; reflexivity. Qed.
+
+Lemma good_fold {A} (f : st -> A -> st) l : (forall w x, good w -> good (f w x)) -> forall w, good w -> good (fold_left f l w).
+Proof. intros Hf. induction l as [|a r IH]; intros w G; simpl; [exact G | apply IH, Hf, G]. Qed.
+
+Lemma good_drop_child w o x : good w -> good (drop_child w o x).
+Proof. intros G. apply good_upd_ch; [intros r; apply with_ch_ids | exact G]. Qed.
+
+Lemma good_scrub_groups w o u : good w -> good (scrub_groups w o u).
+Proof.
+  intros G. unfold scrub_groups. apply good_fold; [|exact G]. intros w0 g G0.
+  destruct (eprops (E w0 g)) as [|a l]; [exact G0|].
+  assert (G1 : good (upd w0 g (fun r => with_props r (filter (fun x => negb (Nat.eqb x u)) (a :: l)))))
+    by (apply good_upd_ch; [intros r; apply with_props_ids | exact G0]).
+  destruct (filter _ (a :: l)); [apply good_drop_child; exact G1 | exact G1].
+Qed.
+
+Lemma good_clear_children w o : good w -> good (clear_children w o).
+Proof.
+  intros G. unfold clear_children. apply good_fold; [|exact G]. intros w0 x G0.
+  destruct (kind_eqb (ekind (E w0 x)) KPG); [apply good_drop_child; exact G0|].
+  apply good_set_flat. apply good_drop_child. apply good_scrub_groups. exact G0.
+Qed.
+
 Lemma good_step c w a : good w -> good (fst (step c w a)).
 Proof.
   intros G. destruct a as [ws isobj parent u|obj u|obj ds u|e target|e|es|ws k|ws e]; unfold step.
@@ -557,7 +582,8 @@ Proof.
       destruct (construct c w0 a KPG 4 obj uid 0 ps) as [[w2 o] y] end. exact G2.
   - destruct (Nat.ltb e (n w) && alive w e && Nat.ltb target (n w) && alive w target); [apply good_do_copy; exact G | exact G].
   - match goal with |- context [if ?b then _ else _] => destruct b end; [|exact G]. cbn [fst].
-    apply good_sweep. apply good_set_flat. apply good_upd_ch; [intros r; apply with_ch_ids | exact G].
+    apply good_sweep. apply good_set_flat. apply good_upd_ch; [intros r; apply with_ch_ids|].
+    destruct (kind_eqb (ekind (E w e)) KObject); [apply good_clear_children; exact G | exact G].
   - match goal with |- context [if ?b then _ else _] => destruct b eqn:Eb end; [|exact G]. cbn [fst].
     apply good_kill; [exact G|]. intros e He. apply andb_true_iff in Eb as [Eb _].
     rewrite forallb_forall in Eb. pose proof (Eb e He) as H. apply andb_true_iff in H as [H _]. apply andb_true_iff in H as [H _].
